@@ -189,8 +189,10 @@ func c10retain(policy string) func(string, hackpadfs.FileInfo) bool {
 	case "never":
 		return func(string, hackpadfs.FileInfo) bool { return false }
 	case "by-name":
+		// (the policy looks at the whole path: the same base name is retained below a directory and not at the top, or vice versa)
 		return func(name string, _ hackpadfs.FileInfo) bool {
-			return strings.HasSuffix(name, "0") || strings.HasSuffix(name, "2") || strings.HasSuffix(name, "4")
+			even := strings.HasSuffix(name, "0") || strings.HasSuffix(name, "2") || strings.HasSuffix(name, "4") || strings.HasSuffix(name, "6") || strings.HasSuffix(name, "8")
+			return strings.Contains(name, "/") == even
 		}
 	case "by-size":
 		return func(_ string, info hackpadfs.FileInfo) bool { return info.Size() <= 512 }
@@ -447,6 +449,7 @@ func c10concurrent(env *core.Env, cs c10case, src hackpadfs.FS, tree *c10tree, r
 	if len(files) > 6 {
 		files = files[:6]
 	}
+	files = append(append([]string(nil), files...), files[:(len(files)+1)/2]...) // some names are opened by two goroutines at once
 	want := map[string]string{}
 	for _, f := range files {
 		b, _ := hackpadfs.ReadFile(src, f)
